@@ -33,17 +33,21 @@ def generate(rng, tier, n):
         threads = rng.choice([1, 1, 4])
         budgets = range(0, 51) if tier == "thorough" else BUDGETS_Q
         cb = CaseBuilder(cid, t, {"stats": st, "method": method, "params": params, "threads": threads})
-        if tier != "thorough" and cid % 4 == 3 and isinstance(params, list):
+        if cid % 3 == 2 and isinstance(params, list):
             # two parameter tuples that differ in one component, solved alternately with unrelated budgets in one
             # process and thread: nothing of one solve may survive into the next
             q = list(params)
-            j = rng.randrange(4)
-            q[j] = rng.choice([x for x in ([-INF, 0.0, 1.0, 2.0, INF] if j < 2 else [0.0, 1.0, 2.0] if j == 2 else [-INF, -0.5, 0.0, 1.0, INF])
-                               if x != q[j]])
-            for T in (1, 5, 1, 3, 1, 7, 2, 1, 10):
-                pq = params if rng.random() < 0.5 else q
-                k = cb.solve(method, T, 0.0, 1 if rng.random() < 0.7 else threads, pq, draws)
-                cb.named(k)
+            j = rng.choice([0, 1, 1, 1, 2, 3])
+            if j < 2:
+                # a finite exponent against an infinite one: the discount factors differ already at t = 1 (1/2 vs 0 or 1)
+                q[j] = rng.choice([INF, -INF]) if abs(q[j]) != INF else rng.choice([0.0, 1.0, 2.0, 0.5])
+            else:
+                q[j] = rng.choice([x for x in ([0.0, 1.0, 2.0] if j == 2 else [-INF, -0.5, 0.0, 1.0, INF]) if x != q[j]])
+            # ... in particular a solve that ends after exactly one iteration followed by a longer one with the other tuple
+            for T in (3, 5, 8, 12):
+                for pq, tt in ((params, 1), (q, T), (q, 1), (params, T)):
+                    k = cb.solve(method, tt, 0.0, 1 if rng.random() < 0.8 else threads, pq, draws)
+                    cb.named(k)
             budgets = []
         for T in budgets:
             k = cb.solve(method, T, 0.0, threads, params, draws)
